@@ -129,6 +129,23 @@ func (propC07) Gen(r *Rng, tier string) *World {
 	if r.P(0.35) {
 		w.Extra["engine"] = "inline"
 		genC07Tasks(r, g, w, 1)
+		if r.P(0.03) {
+			// a LONG history on the same objects: dozens of calls over a few bindings
+			binds := []map[string]V{g.Binding(), g.Binding(), g.Binding()}
+			n := r.Range(30, 70)
+			for len(w.Tasks[0]) < n {
+				kind := []string{"eval", "eval", "tryeval", "evalbool", "dump"}[r.Intn(5)]
+				s := Step{Op: kind, Expr: r.Intn(len(w.Exprs))}
+				if kind != "dump" {
+					p := Plan{Kind: kind, Bind: binds[r.Intn(3)]}
+					if r.P(0.1) {
+						p.FailAt = []int{r.Intn(4)}
+					}
+					s.Plan = &p
+				}
+				w.Tasks[0] = append(w.Tasks[0], s)
+			}
+		}
 		// a longer sequential history
 		for len(w.Tasks[0]) < 6 && r.P(0.7) {
 			extra := &World{Cfg: w.Cfg, Exprs: w.Exprs}
